@@ -86,6 +86,29 @@ def mk_arrays(rng, n, ntags, tag_shape=None, dep_shape=None):
     return tag, dep
 
 
+LAYOUTS = ['C', 'C', 'F', 'colslice', 'rowslice', 'reversed']
+
+
+def relayout(a, layout):
+    """an array with the same shape, dtype and values as `a` in another memory layout (what slicing, transposing or
+    numpy.asfortranarray hand to a caller); 'C' is a fresh C-contiguous array"""
+    if a.ndim != 2 or layout == 'C':
+        return a
+    if layout == 'F':
+        return numpy.asfortranarray(a)
+    if layout == 'colslice':
+        big = numpy.full((a.shape[0], 2 * a.shape[1] + 1), 77, dtype=a.dtype)
+        v = big[:, 1::2]
+    elif layout == 'rowslice':
+        big = numpy.full((2 * a.shape[0] + 1, a.shape[1]), 77, dtype=a.dtype)
+        v = big[1::2]
+    else:
+        v = numpy.empty_like(a)[::-1, ::-1]
+    v[...] = a
+    assert v.shape == a.shape and numpy.array_equal(v, a)
+    return v
+
+
 def mk_tokens(rng, words):
     return [Token(word=w) if rng.random() < 0.5 else Token.of_word(w) for w in words]
 
@@ -138,6 +161,9 @@ def run(ctx):
         toks_ = [mk_tokens(rng, s) for s in sents]
         toks0 = [[dict(t) for t in s] for s in toks_]
         arrs0 = [(t.copy(), d.copy()) for t, d in arrs]
+        layout = rng.choice(LAYOUTS)
+        arrs = [(relayout(t, layout), relayout(d, rng.choice(LAYOUTS))) for t, d in arrs]
+        ctx.count(f'tag_layout:{layout}')
         doc_arg = toks_[0] if dform == 'one' else toks_
         sc_arg = ScoringResult(*arrs[0]) if sform == 'one' else [ScoringResult(t, d) for t, d in arrs]
         cd_arg = {w: list(cs) for w, cs in cd.items()}
@@ -146,7 +172,7 @@ def run(ctx):
         two_d = all(t.ndim == 2 and d.ndim == 2 for t, d in arrs)
         data = {'kind': kind, 'doc_form': dform, 'scores_form': sform, 'sentences': sents, 'categories': [str(c) for c in cats],
                 'dictionary': {w: [str(c) for c in cs] for w, cs in cd.items()}, 'large_negative_value': lnv,
-                'tag_scores': [t.tolist() for t, _ in arrs0], 'dep_scores': [d.tolist() for _, d in arrs0], 'fn': fn}
+                'tag_scores': [t.tolist() for t, _ in arrs0], 'dep_scores': [d.tolist() for _, d in arrs0], 'fn': fn, 'tag_layout': layout}
         ctx.count(f'{fn}:{kind}:{obs[0] if obs[0] == "ok" else obs[1]}')
         nontriv = obs[0] == 'ok' and any(w in cd for s in sents for w in s)
         ctx.case((fn, kind, dform, sform, tuple(map(tuple, sents)), tuple(str(c) for c in cats), tuple((w, tuple(map(str, cs))) for w, cs in cd.items()),
@@ -441,7 +467,7 @@ def run(ctx):
                     'hand-written model coq/Cat.v of Category.parse (C05) for the statements about shipped strings']
     return ctx.finish(
         level='proof',
-        rule='cases = calls of the real apply_category_filters / _type_check on fresh numpy float32 arrays with integer scores: random category lists from the shipped '
+        rule='cases = calls of the real apply_category_filters / _type_check on fresh numpy float32 arrays with integer scores in C-contiguous, Fortran, column-sliced, row-sliced and reversed-stride layouts: random category lists from the shipped '
              'inventories (some with a repeated category), 1-4 sentences over a small word pool (repeated words, an empty non-first sentence), random dictionaries '
              '(words absent from the document, empty lists, repeated categories, sometimes a category outside the list), single-sentence and list forms, several '
              'large-negative values incl. the default; an ill-shaped stream (15 kinds of shape/form/count defects, non-2-D arrays); apply_filter with explicit index '
@@ -476,11 +502,12 @@ def replay(data):
         arrs = [(numpy.array(t, dtype=numpy.float32), numpy.array(dd, dtype=numpy.float32)) for t, dd in zip(d['tag_scores'], d['dep_scores'])]
         arrs = [(t if t.ndim >= 2 or t.size else t.reshape(0, len(cats)), dd if dd.ndim >= 2 or dd.size else dd.reshape(0, 1)) for t, dd in arrs]
         arrs0 = [(t.copy(), dd.copy()) for t, dd in arrs]
+        arrs = [(relayout(t, d.get('tag_layout', 'C')), dd) for t, dd in arrs]
         toks_ = [[Token(word=w) for w in s] for s in sents]
         doc_arg = toks_[0] if d['doc_form'] == 'one' else toks_
         sc_arg = ScoringResult(*arrs[0]) if d['scores_form'] == 'one' else [ScoringResult(t, dd) for t, dd in arrs]
         obs = observe(d.get('fn', 'filter'), doc_arg, sc_arg, cats, cd, d.get('large_negative_value'))
-        print(f"   {d.get('fn', 'filter')} on {d['kind']} input ({d['doc_form']}/{d['scores_form']} forms, {len(sents)} sentence(s), {len(cats)} categories): "
+        print(f"   {d.get('fn', 'filter')} on {d['kind']} input (tag layout {d.get('tag_layout', 'C')}, {d['doc_form']}/{d['scores_form']} forms, {len(sents)} sentence(s), {len(cats)} categories): "
               f"{'returned' if obs[0] == 'ok' else 'raised ' + obs[1]}")
         big = numpy.float32(-10e+32 if d.get('large_negative_value') is None else d['large_negative_value'])
         for k, ((t, dd), (t0, d0)) in enumerate(zip(arrs, arrs0)):
